@@ -106,7 +106,13 @@ var (
 	c4low  = conv{false, 6, ip4(10, 0, 2, 1), ip4(10, 0, 2, 2), 1024, 3306}
 	c6dhcp = conv{true, 17, ip6(2, 7), []byte{0xff, 2, 0, 0, 0, 0, 0, 0, 0, 0, 0, 0, 0, 1, 0, 2}, 546, 547}
 	c4bc   = conv{false, 17, ip4(10, 0, 2, 7), ip4(255, 255, 255, 255), 137, 138}
-	convs  = []conv{c4ssh, c4dns, c4icmp, c4esp, c6web, c6hi, c6dns, c6icmp, c6low, c4low, c6dhcp, c4bc}
+	// both ports in the common-port table: both are zeroed, the two directions are each other's Reverse()
+	c6cc  = conv{true, 6, ip6(3, 1), ip6(3, 2), 8080, 443}
+	c4cc  = conv{false, 6, ip4(10, 1, 1, 1), ip4(10, 1, 1, 2), 443, 80}
+	c6dd  = conv{true, 17, ip6(3, 3), ip6(3, 4), 53, 53}
+	c4dd  = conv{false, 17, ip4(10, 1, 2, 1), ip4(10, 1, 2, 2), 443, 53}
+	c4smb = conv{false, 6, ip4(10, 1, 3, 1), ip4(10, 1, 3, 2), 80, 445}
+	convs = []conv{c4ssh, c4dns, c4icmp, c4esp, c6web, c6hi, c6dns, c6icmp, c6low, c4low, c6dhcp, c4bc, c6cc, c4cc, c6dd, c4dd, c4smb}
 )
 
 func hx(b []byte) string { return hex.EncodeToString(b) }
@@ -196,6 +202,20 @@ func fixedCases() []input {
 	dh := mkPkt(c6dhcp, false, 0, 0, c6dhcp.cport)
 	out = append(out, newBuilder(128, big).pkt(low, 4, 60).lock("writeout", 1).pkt(low, 4, 60).pkt(mkPkt(c6low, false, 0x10, 0, c6low.cport), 4, 52).unlock().pkt(low, 4, 61).
 		pkt(dh, 4, 100).lock("status", 0).pkt(dh, 4, 101).pkt(dh, 4, 102).unlock().pkt(dh, 4, 103).lock("query", 0).unlock().in)
+	// both ports common, both directions, before / inside / after a pause
+	b2 := newBuilder(128, big)
+	for _, c := range []conv{c6cc, c4cc, c6dd, c4dd, c4smb} {
+		b2.pkt(mkPkt(c, false, 0x18, 0, c.cport), 4, 100)
+	}
+	b2.lock("writeout", 2)
+	for _, c := range []conv{c6cc, c4cc, c6dd, c4dd, c4smb} {
+		b2.pkt(mkPkt(c, true, 0x18, 0, c.cport), 0, 200)
+	}
+	b2.unlock()
+	for _, c := range []conv{c6cc, c4cc} {
+		b2.pkt(mkPkt(c, false, 0x10, 0, c.cport), 4, 300)
+	}
+	out = append(out, b2.lock("writeout", 0).unlock().in)
 	return out
 }
 
@@ -218,7 +238,7 @@ func gen(r *vhlib.Rand, i int, o vhlib.Opts) any {
 	for k := range cs {
 		cs[k] = vhlib.Pick(r, convs)
 		if r.Chance(60) { // bias to IPv6
-			cs[k] = vhlib.Pick(r, []conv{c6web, c6hi, c6dns, c6icmp, c6low, c6low, c6dhcp})
+			cs[k] = vhlib.Pick(r, []conv{c6web, c6hi, c6dns, c6icmp, c6low, c6low, c6dhcp, c6cc, c6dd})
 		}
 	}
 	lastC, lastRev := -1, false
